@@ -85,6 +85,14 @@ pub fn crypto_secretbox_open_detached(
     key: &Key,
 ) -> Result<(), Error> {
     let c_len = ciphertext.len();
+    if message.len() < c_len {
+        // the length of the ciphertext is the sender's choice
+        return Err(dryoc_error!(format!(
+            "message buffer too small ({} < {})",
+            message.len(),
+            c_len
+        )));
+    }
     crypto_secretbox_open_detached_to(&mut message[..c_len], mac, ciphertext, nonce, key)
 }
 
